@@ -242,4 +242,224 @@ theorem processPubrec_out {s : Server} {conn i : Nat} (L : Live s conn i) (id rc
         rfl
       exact ⟨rfl, hw⟩
 
+/-! ### SUBSCRIBE / UNSUBSCRIBE: the per-filter folds -/
+
+/-- a fold that appends ONE element per step to a projected list, under an invariant -/
+theorem foldl_inv_len {α β γ} (P : β → Prop) (proj : β → List γ) (f : β → α → β) (l : List α) (b : β)
+    (h0 : P b) (hs : ∀ b a, P b → P (f b a) ∧ (proj (f b a)).length = (proj b).length + 1) :
+    P (l.foldl f b) ∧ (proj (l.foldl f b)).length = (proj b).length + l.length := by
+  induction l generalizing b with
+  | nil => exact ⟨h0, rfl⟩
+  | cons x xs ih =>
+    obtain ⟨h1, h2⟩ := hs b x h0
+    obtain ⟨h3, h4⟩ := ih (f b x) h1
+    refine ⟨h3, ?_⟩
+    rw [List.foldl_cons, h4, h2, List.length_cons]
+    omega
+
+/-- a fold that appends ONE code per element, the code being a function of the element alone as long as the
+    invariant `P` holds: the codes are `l.map g`, in order -/
+theorem foldl_track {α β γ} (P : β → Prop) (proj : β → List γ) (g : α → γ) (f : β → α → β) (l : List α) (b : β)
+    (h0 : P b) (hs : ∀ b a, P b → P (f b a) ∧ proj (f b a) = proj b ++ [g a]) :
+    P (l.foldl f b) ∧ proj (l.foldl f b) = proj b ++ l.map g := by
+  induction l generalizing b with
+  | nil => exact ⟨h0, by simp⟩
+  | cons x xs ih =>
+    obtain ⟨h1, h2⟩ := hs b x h0
+    obtain ⟨h3, h4⟩ := ih (f b x) h1
+    refine ⟨h3, ?_⟩
+    rw [List.foldl_cons, h4, h2, List.map_cons, List.append_assoc]
+    rfl
+
+/-- what the per-filter work of SUBSCRIBE / UNSUBSCRIBE keeps: the fields of object `i` a write looks at, the
+    capabilities and the ACL -/
+structure Keep (i : Nat) (s s' : Server) : Prop where
+  conn : (getObj s' i).conn = (getObj s i).conn
+  ver : (getObj s' i).ver = (getObj s i).ver
+  isOpen : (getObj s' i).isOpen = (getObj s i).isOpen
+  stopped : (getObj s' i).stopped = (getObj s i).stopped
+  inline : (getObj s' i).inline = (getObj s i).inline
+  peer : (getObj s' i).peerGone = (getObj s i).peerGone
+  caps : s'.caps = s.caps
+  acl : s'.aclDeny = s.aclDeny
+
+theorem Keep.refl (i : Nat) (s : Server) : Keep i s s := ⟨rfl, rfl, rfl, rfl, rfl, rfl, rfl, rfl⟩
+
+/-- server fields other than `objs`, `caps`, `aclDeny` change -/
+theorem Keep.upd {i : Nat} {s0 s s' : Server} (h : Keep i s0 s) (ho : s'.objs = s.objs) (hc : s'.caps = s.caps)
+    (ha : s'.aclDeny = s.aclDeny) : Keep i s0 s' := by
+  have e := getObj_of_objs_eq ho i
+  exact ⟨by rw [e]; exact h.conn, by rw [e]; exact h.ver, by rw [e]; exact h.isOpen, by rw [e]; exact h.stopped,
+    by rw [e]; exact h.inline, by rw [e]; exact h.peer, hc.trans h.caps, ha.trans h.acl⟩
+
+/-- the acting object is rewritten by a function that keeps the six fields -/
+theorem Keep.mod {i : Nat} {s0 s : Server} (h : Keep i s0 s) (f : Client → Client)
+    (hf : ∀ c, (f c).conn = c.conn ∧ (f c).ver = c.ver ∧ (f c).isOpen = c.isOpen ∧ (f c).stopped = c.stopped ∧
+      (f c).inline = c.inline ∧ (f c).peerGone = c.peerGone) : Keep i s0 (modObj s i f) := by
+  obtain ⟨f1, f2, f3, f4, f5, f6⟩ := hf (getObj s i)
+  unfold modObj
+  rcases getObj_setObj_self_cases s i (f (getObj s i)) with e | e
+  · exact ⟨by rw [e, f1]; exact h.conn, by rw [e, f2]; exact h.ver, by rw [e, f3]; exact h.isOpen,
+      by rw [e, f4]; exact h.stopped, by rw [e, f5]; exact h.inline, by rw [e, f6]; exact h.peer, h.caps, h.acl⟩
+  · exact ⟨by rw [e]; exact h.conn, by rw [e]; exact h.ver, by rw [e]; exact h.isOpen,
+      by rw [e]; exact h.stopped, by rw [e]; exact h.inline, by rw [e]; exact h.peer, h.caps, h.acl⟩
+
+theorem Keep.live {i conn : Nat} {s s' : Server} (h : Keep i s s') (hc : s'.connOf = s.connOf) (L : Live s conn i) :
+    Live s' conn i :=
+  ⟨by rw [hc]; exact L.reg, h.conn.trans L.conn, h.isOpen.trans L.isOpen, h.stopped.trans L.stopped,
+   h.inline.trans L.inline, h.peer.trans L.peer⟩
+
+/-- the UNSUBACK reason code of one filter, given the index state `x` the filter is removed from: 0x91 when the packet
+    identifier is in use, else 0x00 (a subscription existed) or 0x11 (none existed) -/
+def unsubCode (inUse : Bool) (existed : Bool) : Nat := if inUse then 0x91 else if existed then 0x00 else 0x11
+
+/-- **UNSUBSCRIBE at handler level**: no error; exactly one output, the UNSUBACK to `conn` with the request's
+    identifier and exactly one reason code per filter, each of them 0x91 when the identifier is in use and 0x00 / 0x11
+    otherwise -/
+theorem processUnsubscribe_out {s : Server} {conn i : Nat} (L : Live s conn i) (id : Nat) (fs : List Str) :
+    ∃ rcs, processUnsubscribe s i id fs =
+        ((processUnsubscribe s i id fs).1, [.wrote conn (.unsuback (getObj s i).ver id rcs)], none) ∧
+      rcs.length = fs.length ∧
+      (∀ rc ∈ rcs, if (flGet (getObj s i) id).isSome then rc = 0x91 else (rc = 0x00 ∨ rc = 0x11)) := by
+  unfold processUnsubscribe
+  extract_lets +onlyGivenNames c inUse r
+  have hr0 : (Keep i s r.1 ∧ (∀ rc ∈ r.2, if inUse = true then rc = 0x91 else (rc = 0x00 ∨ rc = 0x11))) ∧
+      r.2.length = ([] : List Nat).length + fs.length := by
+    refine foldl_inv_len (fun (acc : Server × List Nat) => Keep i s acc.1 ∧
+        (∀ rc ∈ acc.2, if inUse = true then rc = 0x91 else (rc = 0x00 ∨ rc = 0x11))) (fun acc => acc.2) _ fs (s, [])
+      ⟨Keep.refl i s, fun _ h => by cases h⟩ ?_
+    intro acc f h
+    split
+    rename_i s' rcs
+    by_cases hu : inUse = true
+    · rw [if_pos hu]
+      refine ⟨⟨h.1, ?_⟩, by simp⟩
+      intro rc hrc
+      rcases List.mem_append.mp hrc with hrc | hrc
+      · exact h.2 rc hrc
+      · rw [if_pos hu]; simpa using hrc
+    · rw [if_neg hu]
+      extract_lets +onlyGivenNames rr src s1 s2
+      refine ⟨⟨?_, ?_⟩, by simp⟩
+      · show Keep i s s2
+        refine (h.1.upd (s' := s1) rfl rfl rfl).mod _ ?_
+        intro c
+        exact ⟨rfl, rfl, rfl, rfl, rfl, rfl⟩
+      · intro rc hrc
+        rcases List.mem_append.mp hrc with hrc | hrc
+        · exact h.2 rc hrc
+        · rw [if_neg hu]
+          rw [List.mem_singleton] at hrc
+          rw [hrc]
+          by_cases hx : rr.2 = true
+          · rw [if_pos hx]; exact Or.inl rfl
+          · rw [if_neg hx]; exact Or.inr rfl
+  have hr : Keep i s r.1 ∧ r.2.length = fs.length ∧
+      (∀ rc ∈ r.2, if inUse = true then rc = 0x91 else (rc = 0x00 ∨ rc = 0x11)) :=
+    ⟨hr0.1.1, by simpa using hr0.2, hr0.1.2⟩
+  clear hr0
+  generalize r = r' at hr
+  obtain ⟨s', rcs⟩ := r'
+  obtain ⟨hk, hlen, hcodes⟩ := hr
+  refine ⟨rcs, ?_, hlen, hcodes⟩
+  simp only []
+  have hd : dead (getObj s' i) = false := dead_of_live (hk.isOpen.trans L.isOpen) (hk.peer.trans L.peer)
+  rw [if_neg (by rw [hd]; decide), hk.conn, hk.ver, L.conn]
+
+/-- the MQTT 3 downgrade of a SUBACK code: every failure code becomes 0x80 -/
+def finCode (ver rc : Nat) : Nat := if rc > 2 && ver < 5 then 0x80 else rc
+
+/-- the SUBACK reason code of one filter — a function of the state BEFORE the packet, the packet identifier and the
+    filter alone (the per-filter work changes neither the ACL nor the capabilities nor the client's in-flight
+    records) -/
+def subCode (s : Server) (i id : Nat) (sub : Sub) : Nat :=
+  if (flGet (getObj s i) id).isSome then 0x91
+  else if !isValidFilter sub.filter false then finCode (getObj s i).ver 0x8F
+  else if sub.noLocal && isSharedFilter sub.filter then finCode (getObj s i).ver 0x82
+  else if !aclOk s (getObj s i).id sub.filter false then
+    finCode (getObj s i).ver (if s.caps.obscureNotAuthorized then 0x80 else 0x87)
+  else finCode (getObj s i).ver (grantedQos s.caps sub.qos)
+
+theorem aclOk_congr {s s' : Server} (h : s'.aclDeny = s.aclDeny) (cid topic : Str) (w : Bool) :
+    aclOk s' cid topic w = aclOk s cid topic w := by
+  unfold aclOk
+  rw [h]
+
+/-- **SUBSCRIBE at handler level**: no error; the FIRST output is the SUBACK to `conn` with the request's identifier
+    and the reason codes `fs.map (subCode s i id)` (exactly one per filter, in order); the retained replay follows -/
+theorem processSubscribe_out {s : Server} {conn i : Nat} (L : Live s conn i) (id subId : Nat) (fs : List Sub) :
+    (processSubscribe s i id subId fs).2.2 = none ∧
+    ∃ replay, (processSubscribe s i id subId fs).2.1 =
+      .wrote conn (.suback (getObj s i).ver id (fs.map (subCode s i id))) :: replay := by
+  unfold processSubscribe
+  extract_lets +onlyGivenNames c inUse fin r
+  have hr : Keep i s r.1 ∧ r.2.1 = ([] : List Nat) ++ fs.map (subCode s i id) := by
+    refine foldl_track (fun (acc : Server × List Nat × List Bool) => Keep i s acc.1) (fun acc => acc.2.1)
+      (subCode s i id) _ fs (s, [], []) (Keep.refl i s) ?_
+    intro acc sub h
+    split
+    rename_i s' rcs exs
+    extract_lets +onlyGivenNames sub'
+    split
+    · rename_i hu
+      have hu' : (flGet (getObj s i) id).isSome = true := hu
+      refine ⟨h, ?_⟩
+      show rcs ++ [0x91] = rcs ++ [subCode s i id sub]
+      unfold subCode
+      rw [if_pos hu']
+    · rename_i hu
+      have hu' : ¬ (flGet (getObj s i) id).isSome = true := hu
+      split
+      · rename_i hv
+        have hv' : (!isValidFilter sub.filter false) = true := hv
+        refine ⟨h, ?_⟩
+        show rcs ++ [fin 0x8F] = rcs ++ [subCode s i id sub]
+        unfold subCode
+        rw [if_neg hu', if_pos hv']
+        rfl
+      · rename_i hv
+        have hv' : ¬ (!isValidFilter sub.filter false) = true := hv
+        split
+        · rename_i hn
+          have hn' : (sub.noLocal && isSharedFilter sub.filter) = true := hn
+          refine ⟨h, ?_⟩
+          show rcs ++ [fin 0x82] = rcs ++ [subCode s i id sub]
+          unfold subCode
+          rw [if_neg hu', if_neg hv', if_pos hn']
+          rfl
+        · rename_i hn
+          have hn' : ¬ (sub.noLocal && isSharedFilter sub.filter) = true := hn
+          have hacl : aclOk s' (getObj s i).id sub.filter false = aclOk s (getObj s i).id sub.filter false :=
+            aclOk_congr h.acl _ _ _
+          split
+          · rename_i ha
+            have ha' : (!aclOk s (getObj s i).id sub.filter false) = true := by rw [← hacl]; exact ha
+            refine ⟨h, ?_⟩
+            show rcs ++ [fin (if s'.caps.obscureNotAuthorized = true then 0x80 else 0x87)] =
+              rcs ++ [subCode s i id sub]
+            unfold subCode
+            rw [if_neg hu', if_neg hv', if_neg hn', if_pos ha', h.caps]
+            rfl
+          · rename_i ha
+            have ha' : ¬ (!aclOk s (getObj s i).id sub.filter false) = true := by rw [← hacl]; exact ha
+            extract_lets +onlyGivenNames rr src s1 s2
+            refine ⟨?_, ?_⟩
+            · show Keep i s s2
+              refine (h.upd (s' := s1) rfl rfl rfl).mod _ ?_
+              intro c
+              exact ⟨rfl, rfl, rfl, rfl, rfl, rfl⟩
+            · show rcs ++ [fin (grantedQos s'.caps sub.qos)] = rcs ++ [subCode s i id sub]
+              unfold subCode
+              rw [if_neg hu', if_neg hv', if_neg hn', if_neg ha', h.caps]
+              rfl
+  generalize r = r' at hr
+  obtain ⟨s', rcs, exs⟩ := r'
+  obtain ⟨hk, hrcs⟩ := hr
+  rw [List.nil_append] at hrcs
+  simp only [] at hrcs hk ⊢
+  subst hrcs
+  have hd : dead (getObj s' i) = false := dead_of_live (hk.isOpen.trans L.isOpen) (hk.peer.trans L.peer)
+  rw [if_neg (by rw [hd]; decide), hk.conn, hk.ver, L.conn]
+  exact ⟨rfl, _, rfl⟩
+
 end Mochi.Broker.R07
